@@ -1,7 +1,7 @@
 SPECIFICATION Spec
 CONSTANTS
   NP = 3
-  MaxCmds = 8
+  MaxCmds = 10
 INVARIANT Inv
 PROPERTY StopLeadsToStopped
 PROPERTY VerifyEnds
